@@ -342,6 +342,8 @@ pub struct Program {
     /// replacement values for the i-th `Op::Wit` (C07: same shape, other
     /// inputs)
     pub inputs: Option<Vec<F>>,
+    /// replacement specs for the i-th point-valued witness/public argument
+    pub inputs_pts: Option<Vec<PtSpec>>,
     pub overrides: Overrides,
 }
 
@@ -351,6 +353,7 @@ impl Program {
             ops,
             mode: Mode { solve: true },
             inputs: None,
+            inputs_pts: None,
             overrides: Vec::new(),
         }
     }
@@ -471,6 +474,15 @@ pub fn run_ops(
     t.push(Composer::ONE, F::one(), usize::MAX);
     t.push_tf(Composer::IDENTITY, curve::identity(), usize::MAX);
     let mut wit_no = 0usize;
+    let mut pt_no = 0usize;
+    let mut next_pt = |default: &PtSpec| -> PtSpec {
+        let r = match &prog.inputs_pts {
+            Some(p) if !p.is_empty() => p[pt_no % p.len()].clone(),
+            _ => default.clone(),
+        };
+        pt_no += 1;
+        r
+    };
 
     for (oi, op) in prog.ops.iter().enumerate() {
         let nw = t.wits.len();
@@ -727,6 +739,7 @@ pub fn run_ops(
                 }
             }
             Op::PointWit(s) => {
+                let s = &next_pt(s);
                 let p = c.append_point(s.extended())?;
                 match s.affine() {
                     Some(m) => {
@@ -747,6 +760,7 @@ pub fn run_ops(
                 }
             }
             Op::PointPublic(s) => {
+                let s = &next_pt(s);
                 let p = c.append_public_point(s.extended())?;
                 match s.affine() {
                     Some(m) => {
@@ -774,12 +788,13 @@ pub fn run_ops(
             }
             Op::AssertEqPublicPoint(p) => {
                 let p = pick(*p, t.pts.len());
-                let m = if solve {
-                    t.pts_model[p]
+                let (m, ext) = if solve {
+                    (t.pts_model[p], curve::to_extended(&t.pts_model[p]))
                 } else {
-                    curve::generator()
+                    let s = next_pt(&PtSpec::sub(F::one()));
+                    (s.affine().unwrap_or(curve::identity()), s.extended())
                 };
-                c.assert_equal_public_point(t.pts[p], curve::to_affine(&m))?;
+                c.assert_equal_public_point(t.pts[p], ext)?;
                 t.public.push(m.0);
                 t.public.push(m.1);
             }
